@@ -535,6 +535,30 @@ func runPoly(c Case) (v vkit.Verdict) {
 	inBox := func(p geom.Point, b *geom.Bounds) bool {
 		return p.X >= b.Min.X-cTol && p.X <= b.Max.X+cTol && p.Y >= b.Min.Y-cTol && p.Y <= b.Max.Y+cTol
 	}
+	// the same region in a spelling the library produces itself: what P.Difference(a box far away) returns (the
+	// operations hand their operand back through the clipper's own ring conventions - closing vertices and all)
+	if b := mp.Bounds(); !b.Empty() {
+		w := b.Max.X - b.Min.X + b.Max.Y - b.Min.Y + 1
+		far := &geom.Bounds{Min: geom.Point{X: b.Max.X + 3*w, Y: b.Max.Y + 3*w}, Max: geom.Point{X: b.Max.X + 4*w, Y: b.Max.Y + 4*w}}
+		var R geom.Polygonal
+		if p := vkit.Catch(func() { R = P.Difference(far) }); p != "" {
+			return v.Fail("%T.Difference(a box far away) panicked: %s", P, p)
+		}
+		if R != nil {
+			v.Class("second_hand_spelling")
+			if got := R.Area(); vkit.Off(got-wantArea, 4*areaTol) {
+				return v.Fail("Area of %T.Difference(a box far away) = %.17g, the polygon's exact area is %.17g (tol %.3g); result %v", P, got, wantArea, 4*areaTol, R)
+			}
+			_, rIsMulti := R.(geom.MultiPolygon)
+			// (Polygon.Centroid is only stated for rings wound opposite to their shell; a result that lists several shells in
+			// one Polygon value is not a polygon the centroid clause speaks of)
+			if allClosed && (rIsMulti || (opposite && len(mp) == 1)) {
+				if got := R.Centroid(); vkit.Off(got.X-wantCx, 4*cTol) || vkit.Off(got.Y-wantCy, 4*cTol) {
+					return v.Fail("Centroid of %T.Difference(a box far away) = %v, exact (%.17g, %.17g) (tol %.3g); result %v", P, got, wantCx, wantCy, 4*cTol, R)
+				}
+			}
+		}
+	}
 	if allClosed {
 		v.Class("all_closed")
 		// MultiPolygon.Centroid: any per-ring winding
